@@ -175,11 +175,9 @@ Section JoltLoop.
 
   (** ** the boolean test: lines 83-135, one call of [_intersection_loop] *)
   Record istate := IS { iY : list (V3 F); iprev : F; idir : V3 F }.
-  (** [INoProgress]: the solver reported no improvement ([return False, None, None, None]); the
-      source then executes [search_direction[:] = None]: compiled code raises TypeError
-      ("expected array(float64, 1d, C), got None"), interpreted code stores NaN and answers
-      NoIntersection.  Kept as a separate outcome so that neither behaviour is hidden. *)
-  Inductive istep_result := IErr | IAssert | INoProgress | IDone (g : gjk_state) (s : istate).
+  (** (Before /repo commit 3066ace the no-improvement arm executed [search_direction[:] = None]:
+      TypeError in compiled code, NaN direction interpreted - finding F-J1, fixed.) *)
+  Inductive istep_result := IErr | IAssert | IDone (g : gjk_state) (s : istate).
 
   Definition intersection_step (tolerance_sq : F) (p q : V3 F) (s : istate) : istep_result :=
     let support_point := vsub p q in
@@ -188,7 +186,7 @@ Section JoltLoop.
     let Y1 := iY s ++ [support_point] in
     match get_closest_point_to_origin Y1 (length Y1) (iprev s) with
     | GcpErr => IErr
-    | GcpFail => INoProgress
+    | GcpFail => IDone NoIntersection (IS Y1 (iprev s) (idir s))
     | GcpOk v vl simplex =>
       if N.eqb simplex 15 then IDone Intersection (IS Y1 (iprev s) v)
       else if vl <=? tolerance_sq then IDone Intersection (IS Y1 (iprev s) v)
@@ -207,7 +205,7 @@ Section JoltLoop.
 
   Definition istate0 : istate := IS [] MAX_FLOAT (V one zero zero).
 
-  Inductive isect_result := XErr | XAssert | XFuel | XNoProgress (iterations : nat) | XAns (b : bool) (iterations : nat).
+  Inductive isect_result := XErr | XAssert | XFuel | XAns (b : bool) (iterations : nat).
 
   Fixpoint intersection_loop (fuel : nat) (tolerance_sq : F) (sA sB : V3 F -> V3 F)
            (s : istate) (iterations : nat) : isect_result :=
@@ -219,7 +217,6 @@ Section JoltLoop.
       match intersection_step tolerance_sq p q s with
       | IErr => XErr
       | IAssert => XAssert
-      | INoProgress => XNoProgress (S iterations)
       | IDone Unknown s' => intersection_loop fuel' tolerance_sq sA sB s' (S iterations)
       | IDone Intersection _ => XAns true (S iterations)
       | IDone _ _ => XAns false (S iterations)
@@ -235,7 +232,6 @@ Section JoltLoop.
       match intersection_step tolerance_sq p q s with
       | IErr => (rev dirs', XErr)
       | IAssert => (rev dirs', XAssert)
-      | INoProgress => (rev dirs', XNoProgress (S iterations))
       | IDone Unknown s' => replay_intersection tolerance_sq rest s' (S iterations) dirs'
       | IDone Intersection _ => (rev dirs', XAns true (S iterations))
       | IDone _ _ => (rev dirs', XAns false (S iterations))
